@@ -530,7 +530,25 @@ func c11NavModel(c *core.Ctx) {
 			it.run(fn)
 			return nil
 		}()
-		c.Check(err == nil && it.navCur == 0, "R11d", core.FuncKey(fn)+" model", fn.Pos(), "cursor moves to the navigator's root", "MoveToRoot does not leave the cursor on the navigator's root")
+		okDoc := err == nil && it.navCur == 0
+		// a query started on an inner node: the navigator's root is that node, and "/" must anchor there
+		it2 := it0
+		it2.w, it2.navCur, it2.navRoot = w, 4, 1
+		err2 := func() (err error) {
+			defer func() {
+				if r := recover(); r != nil {
+					if ne, ok := r.(c11navErr); ok {
+						err = ne
+						return
+					}
+					panic(r)
+				}
+			}()
+			it2.run(fn)
+			return nil
+		}()
+		okInner := err2 == nil && it2.navCur == 1
+		c.Check(okDoc && okInner, "R11d", core.FuncKey(fn)+" model", fn.Pos(), "cursor moves to the navigator's root (document root and inner-node root)", "MoveToRoot does not leave the cursor on the navigator's own root (absolute paths evaluated from an inner node anchor at the wrong node)")
 	}
 	c.Floor("R11d", 7, "six movement methods + MoveToRoot")
 }
